@@ -237,16 +237,29 @@ fn cp_case_joback(c: &(String, Vec<String>, Array1<f64>, f64), rec: &mut Rec) {
 fn mixing_case(c: &(String, Vec<PureRecord<DipprRecord>>, Array1<f64>, f64), rec: &mut Rec) {
     let (_, recs, x, t) = c;
     let mix = Arc::new(EquationOfState::ideal_gas(Arc::new(Dippr::from_records(recs.clone(), None).unwrap())));
+    // the relation is exact at every density: a ladder from 20 mol/m3 down to 2e-13 mol/m3 (partial densities down to
+    // 1e-21 per cubic Angstrom - far below any threshold that could be mistaken for "component absent")
     let v = 0.05 * METER.powi::<typenum::P3>();
-    let s = State::new_nvt(&mix, *t * KELVIN, v, &(x * MOL)).unwrap();
-    let mu = s.chemical_potential(Contributions::IdealGas).to_reduced();
-    for i in 0..x.len() {
-        let pure = Arc::new(EquationOfState::ideal_gas(Arc::new(Dippr::new_pure(recs[i].clone()).unwrap())));
-        let sp = State::new_nvt(&pure, *t * KELVIN, v, &(arr1(&[x.sum()]) * MOL)).unwrap();
-        let mp = sp.chemical_potential(Contributions::IdealGas).to_reduced()[0];
-        let expect = mp + t * (x[i] / x.sum()).ln();
-        rec.check("ideal_mixing", &format!("{i}"), (mu[i] - expect).abs() / (1e-10 * (mu[i].abs() + t)), true, || format!("mu_{i}^ig(mix) = {:e}, mu^ig(pure) + RT ln x = {expect:e}", mu[i]));
+    for (k, vf) in [1.0, 1e5, 1e10, 1e14].into_iter().enumerate() {
+        let v = v * vf;
+        let s = State::new_nvt(&mix, *t * KELVIN, v, &(x * MOL)).unwrap();
+        let mu = s.chemical_potential(Contributions::IdealGas).to_reduced();
+        for i in 0..x.len() {
+            let pure = Arc::new(EquationOfState::ideal_gas(Arc::new(Dippr::new_pure(recs[i].clone()).unwrap())));
+            let sp = State::new_nvt(&pure, *t * KELVIN, v, &(arr1(&[x.sum()]) * MOL)).unwrap();
+            let mp = sp.chemical_potential(Contributions::IdealGas).to_reduced()[0];
+            let expect = mp + t * (x[i] / x.sum()).ln();
+            let sub = if k == 0 { format!("{i}") } else { format!("{i}|V x {vf:e}") };
+            rec.check("ideal_mixing", &sub, (mu[i] - expect).abs() / (1e-10 * (mu[i].abs() + t)), true, || format!("mu_{i}^ig(mix) = {:e}, mu^ig(pure) + RT ln x = {expect:e}", mu[i]));
+        }
+        // Euler relation of the ideal-gas part: G = sum N_i mu_i, and p_ig V = N R T
+        let n = (x * MOL).to_reduced();
+        let g = (s.helmholtz_energy(Contributions::IdealGas) + s.pressure(Contributions::IdealGas) * s.volume).to_reduced();
+        let nm: f64 = n.iter().zip(mu.iter()).map(|(a, b)| a * b).sum();
+        let sc: f64 = n.iter().zip(mu.iter()).map(|(a, b)| (a * b).abs()).sum();
+        rec.check("ideal_gas_euler", &format!("V x {vf:e}"), (g - nm).abs() / (1e-10 * sc), true, || format!("A_ig + p_ig V = {g:e}, sum N_i mu_i^ig = {nm:e}"));
     }
+    let s = State::new_nvt(&mix, *t * KELVIN, v, &(x * MOL)).unwrap();
     // mixture heat capacity is the mole-fraction average of the pure ones
     let cpm = s.molar_isobaric_heat_capacity(Contributions::IdealGas).to_reduced();
     let avg: f64 = (0..x.len())
